@@ -64,6 +64,7 @@ OBLIGATIONS = [
     "SkVerif.C13.shiftState_fresh",
     "SkVerif.C13.shift_equivariance_history",
     "SkVerif.C13.hampel_index_preserved",
+    "SkVerif.C13.hampel_flags_mark_removed",
     "SkVerif.C13.refit_forgets_history",
     "SkVerif.C13.refit_same_outcome",
 ]
@@ -96,14 +97,16 @@ RULE = ("multivariate stream: 2-3 column frames with string / integer column lab
         "(sp 1..5 x additive/multiplicative x origins -7/0/5 x every start offset in -sp-1..2sp+1 of the transformed stretch, with and without "
         "phase-neutral / arbitrary updates; quick = seed-rotated third), conditional deseasonalizer x 6 seasonality tests, detrender histories "
         "(degree 0/1; next/overlapping/gapped/earlier/empty update batches before and after a horizon was set), Box-Cox/log/4 sklearn adaptors, "
-        "OptionalPassthrough around each, Hampel filter (w 1..6, origins 0 and != 0), Imputer/ACF/PACF/cos (oracle only), structured random histories, "
+        "OptionalPassthrough around each, Hampel filter (w 1..6, origins 0 and != 0, return_bool False / True, univariate and frames, later stretches), Imputer/ACF/PACF/cos (oracle only), "
+        "constructor options away from their defaults for every class (HampelFilter return_bool; Imputer missing_values sentinel, random with a fixed random_state, forecaster; ACF adjusted / fft; "
+        "PACF method; trend forecaster with_intercept=False; MinMax/Standard/Robust scalers with non-default options inside the adaptor), structured random histories, "
         "malformed stream (calls before fit, non-series, float index, empty, unsorted, duplicated, gapped); distinct by driver line; "
         "non-trivial = at least one call returned a non-empty series")
 LEVEL_TEXT = ("proof for the model: alignment of the seasonal component for every start offset (incl. before the training start); its independence "
               "from the history (every sequence of update / transform / inverse_transform calls and failing re-fits); round trips (deseasonalizer "
               "additive/multiplicative, detrender for any embedded regression, Box-Cox/log/adaptor for any library map with the stated inverse "
               "hypothesis); index preservation of the tagged transformers and of HampelFilter; fit_transform = fit;transform; shift equivariance of "
-              "every call and history of every modelled transformer incl. HampelFilter; a successful re-fit forgets the object's history (same parameters "
+              "every call and history of every modelled transformer incl. HampelFilter with either value of return_bool (flags stay on the time points of the filtered series); a successful re-fit forgets the object's history (same parameters "
               "=> same results as a fresh object); tie to the code by differential correspondence over call histories")
 LEVEL_NOTE = ("All clauses are proved at full strength for the model of the code after the fixes 1ad9b8f (Deseasonalizer keeps its phase reference across "
               "update and failed re-fit) and bc08df8 (HampelFilter reads windows by position), b2363ba (Detrender.update checks the fitted state) and ea521a6 (PolynomialTrendForecaster keeps the origin of its time axis from fit); the witnesses of the fixed defects stay in the corpus and "
